@@ -63,6 +63,10 @@ def strategy(tier):
                 ops.append(['bind', i, list(tgt)])
             else:
                 ops.append(['detach', i, draw(st.integers(0, 5))])
+                if draw(st.integers(0, 3)) == 0:
+                    # ... and once more with a listener that is no longer (or never was) attached
+                    # to this sender: whatever detach() answers, the live bindings stay
+                    ops.append(['detach_stale', i, draw(st.integers(0, 5))])
         # nouid: anonymous events with one delay value, so that distinct events can be equal
         return {'specs': specs, 'ops': ops, 'share': draw(st.floats(0, 1)) < 0.3,
                 'nouid': draw(st.integers(0, 3)) == 0,
@@ -111,6 +115,7 @@ def oracle(case):
     info = core.Info()
     table = [[] for _ in range(n)]       # per sender: list of [listener object, target]
     heard = []                           # deliveries to callables, global order
+    stale = []                           # listeners that were detached
 
     def make_callable(k):
         def fn(ev):
@@ -149,11 +154,22 @@ def oracle(case):
             table[i].append([listener, tgt])
             labels['bind to ' + ('interpreter' if tgt[0] == 'i' else 'callable')] = labels.get(
                 'bind to ' + ('interpreter' if tgt[0] == 'i' else 'callable'), 0) + 1
+        elif k == 'detach_stale':
+            pool = stale if op[2] % 2 == 0 else [l_ for j_ in range(n) if j_ != i
+                                                 for l_, _ in table[j_]]
+            if pool:
+                try:
+                    d.interp.detach(pool[op[2] % len(pool)])
+                except Exception:
+                    pass
+                labels['detach of a listener that is not attached'] = labels.get(
+                    'detach of a listener that is not attached', 0) + 1
         elif k == 'detach':
             if table[i]:
                 j = op[2] % len(table[i])
                 listener, tgt = table[i].pop(j)
                 d.interp.detach(listener)
+                stale.append(listener)
                 detached_from.add(i)
                 labels['detach'] = labels.get('detach', 0) + 1
         elif k == 'q':
